@@ -132,8 +132,13 @@ def get_algo(mod, cls=None):
 
 def make_algo(cls, rng, seed):
     g = np.random.default_rng(seed) if seed % 2 else np.random.RandomState(seed)
+    import inspect
+    kw = {}
+    if "nhcstep" in inspect.signature(cls.__init__).parameters and rng.random() < 0.6:
+        # the optional number of hill-climbing steps of the memetic optimisers, from fewer to many more than there are candidates
+        kw["nhcstep"] = rng.choice([1, 2, 5, 12, 24, 40])
     try:
-        return cls(ngen=rng.choice([1, 2, 3, 6]), pop_size=rng.choice([4, 6, 10, 16]), rng=g)
+        return cls(ngen=rng.choice([1, 2, 3, 6]), pop_size=rng.choice([4, 6, 10, 16]), rng=g, **kw)
     except TypeError:
         return cls(rng=g)
 
